@@ -244,15 +244,38 @@ def lazy_rule(ctx):
             continue
         f = fs[0]
         nodes = list(sir.walk(f.body))
-        g = [i for i, n in enumerate(nodes) if n.get("k") == "mcall" and n["m"] == "write_group_global_content"]
+        # any call that (transitively) writes the script definitions `R[..]=D(..)` - the helper chain may be reorganised
+        def writes_scripts(h):
+            return any((sir.write_fmt_call(x) or (None, []))[1][:1] and (sir.write_fmt_call(x)[1][0][0] == "lit" and sir.write_fmt_call(x)[1][0][1].startswith("R[")) for x in sir.walk(h.body))
+        script_writers = set(h.name for h in tc.fns if h.body and "group" in h.module and any(writes_scripts(r_) for r_ in sir.reach(tc, h, 3)))
+        g = [i for i, n in enumerate(nodes) if n.get("k") == "mcall" and n["m"] in script_writers and n["m"] != name]
         t = [i for i, n in enumerate(nodes) if n.get("k") == "for" and "trees" in sir.expr_str(n["e"])]
         ok = bool(g) and bool(t) and g[0] < t[0]
         obs.append(ob("C13.lazy/scripts-first/%s" % name, ok, ctx.where(f), "runtime helpers and all R[..]= script definitions are emitted before the first template: %s" % ok))
     ws = [f for f in tc.fns if f.name == "write_all_scripts" and f.body]
     if ws:
         f = ws[0]
-        frag = ["".join(p[1] if p[0] == "lit" else "{%s}" % sir.expr_str(p[1]) for p in sir.write_fmt_call(n)[1]) for n in sir.walk(f.body) if sir.write_fmt_call(n)]
-        ok = any(fr.startswith("R[{gen_lit_str(p)}]=D({gen_lit_str(p)},") for fr in frag)
+        # the text written per script, whatever the number of write calls: `R[` h1 `]=D(` h2 `,` ..  with h1 == h2 == the quoted key
+        loops = [n for n in sir.walk(f.body) if n.get("k") == "for" and "scripts" in sir.expr_str(n["e"])]
+        ok = False
+        if loops:
+            pieces = []
+            for n in sir.walk(loops[0]["body"]):
+                wf_ = sir.write_fmt_call(n)
+                if wf_:
+                    pieces += wf_[1]
+            text = "".join(p_[1] if p_[0] == "lit" else "\x00" for p_ in pieces)
+            holes = [p_[1] for p_ in pieces if p_[0] != "lit"]
+            if text.startswith("R[\x00]=D(\x00,") and len(holes) >= 2:
+                locs = {n["pat"]["name"]: n["init"] for n in sir.walk(loops[0]["body"]) if n.get("k") == "local" and n["pat"].get("k") == "p_ident" and n.get("init") is not None}
+
+                def resolved(h):
+                    h = sir.strip_ref(h)
+                    if h.get("k") == "path" and len(h["segs"]) == 1 and h["segs"][0] in locs:
+                        return sir.expr_str(locs[h["segs"][0]]).replace(" ", "")
+                    return sir.expr_str(h).replace(" ", "")
+                key_var = [b for b, _p in sir.pat_bindings(loops[0]["pat"])][:1]
+                ok = resolved(holes[0]) == resolved(holes[1]) and bool(key_var) and re.fullmatch(r"gen_lit_str\(&?%s\)" % re.escape(key_var[0]), resolved(holes[0])) is not None
         obs.append(ob("C13.lazy/script-registration", ok, ctx.where(f), "each script is registered as R[<path>]=D(<same path>, ..): %s" % ok))
     return obs
 
